@@ -231,6 +231,90 @@ Fixpoint rebuild_from (fuel : nat) (src : list ymod) (c : ctx) (es : list yl_mod
 Definition rebuild (y : yl) (src : list ymod) (c0 : ctx) : res ctx :=
   rebuild_from (S (length src)) src c0 (yl_modules y).
 
+(* ---- submodule graphs: the includes array of a module (lysp_load_submodules, lysp_main_pmod_get_submodule,
+   lysp_parsed_mods_get_submodule, lysp_inject_submodule of tree_schema_common.c) ----
+   Submodules are numbered 1..; [incs] holds at position 0 the include statements of the module and at position k
+   those of submodule k, in source order.  The includes array of the module starts as its own include statements;
+   a submodule include that the module does not list is appended (injected, YANG 1.0 only; YANG 1.1 refuses it).
+   The feature arrays of the module (lysp_feature_next, ylib_feature) follow the final includes array.
+   History (SUB_EARLY_RETURN): in the loop over the includes of a SUBMODULE the code used to return from the whole
+   function as soon as an include was found already parsed (in the includes of the module, or among the submodules
+   being parsed), LY_CHECK_RET(ret != LY_ENOT, ret), instead of going on with the next include; the remaining
+   includes of that submodule were never loaded.  Fixed in /repo commit 272016c (continue); [includes_order_gen true]
+   is kept as the model of the former code for the regression example only. *)
+Definition E_SUB11 : N := 5.          (* YANG 1.1 requires all submodules to be included from the main module *)
+Definition SUB_EARLY_RETURN : bool := false.
+
+Definition iarr := list (nat * bool).       (* pmod->includes: submodule number, inc->submodule set *)
+
+Fixpoint arr_find (j : nat) (a : iarr) : option bool :=
+  match a with
+  | [] => None
+  | (k, p) :: r => if Nat.eqb k j then Some p else arr_find j r
+  end.
+Definition arr_fill (j : nat) (a : iarr) : iarr := map (fun e => if Nat.eqb (fst e) j then (j, true) else e) a.
+(* lysp_inject_submodule: fill the record of that name, else append a new (injected) one *)
+Definition arr_inject (j : nat) (a : iarr) : iarr :=
+  match arr_find j a with Some _ => arr_fill j a | None => a ++ [(j, true)] end.
+
+(* LY_ARRAY_FOR over the includes of a submodule; the step says whether the function returns *)
+Fixpoint sub_loop (step : iarr -> nat -> res (iarr * bool)) (is : list nat) (a : iarr) : res iarr :=
+  match is with
+  | [] => Ok a
+  | j :: r =>
+      match step a j with
+      | Err e => Err e
+      | Ok (a', stop) => if stop then Ok a' else sub_loop step r a'
+      end
+  end.
+
+(* lysp_load_submodules for submodule cur (called from lys_parse_submodule); stack = the submodules being parsed
+   above it (pctx->parsed_mods without the module and without cur) *)
+Fixpoint parse_sub (fuel : nat) (early v11 : bool) (incs : list (list nat)) (stack : list nat) (cur : nat)
+    (a : iarr) : res iarr :=
+  match fuel with
+  | O => Err E_FUEL
+  | S f =>
+      sub_loop (fun a j =>
+        match arr_find j a with
+        | Some true => Ok (a, early)              (* lysp_main_pmod_get_submodule: LY_SUCCESS *)
+        | found =>
+            if (match found with None => v11 | Some _ => false end) then Err E_SUB11
+            else if existsb (Nat.eqb j) stack then Ok (a, early)     (* lysp_parsed_mods_get_submodule: LY_SUCCESS *)
+            else match parse_sub f early v11 incs (cur :: stack) j a with
+                 | Err e => Err e
+                 | Ok a1 => Ok (arr_inject j a1, false)              (* ret == LY_ENOT: lysp_inject_submodule *)
+                 end
+        end) (nth cur incs []) a
+  end.
+
+(* lysp_load_submodules for the module: LY_ARRAY_FOR over its (growing) includes array *)
+Fixpoint main_loop (fuel : nat) (early v11 : bool) (incs : list (list nat)) (u : nat) (a : iarr) : res iarr :=
+  match fuel with
+  | O => Err E_FUEL
+  | S f =>
+      match nth_error a u with
+      | None => Ok a
+      | Some (_, true) => main_loop f early v11 incs (S u) a          (* if (inc->submodule) continue *)
+      | Some (j, false) =>
+          match parse_sub (S (length incs)) early v11 incs [] j a with
+          | Err e => Err e
+          | Ok a1 => main_loop f early v11 incs (S u) (arr_fill j a1)
+          end
+      end
+  end.
+
+(* the submodule numbers in the order of the final includes array *)
+Definition includes_order_gen (early v11 : bool) (incs : list (list nat)) : res (list nat) :=
+  match main_loop (S (length incs)) early v11 incs O (map (fun j => (j, false)) (nth O incs [])) with
+  | Ok a => Ok (map fst a)
+  | Err e => Err e
+  end.
+Definition includes_order : bool -> list (list nat) -> res (list nat) := includes_order_gen SUB_EARLY_RETURN.
+
+(* the feature arrays of the module in context order: [gs] = the features of module and submodules by number *)
+Definition regroup (gs : list (list feat)) (order : list nat) : list (list feat) := map (fun j => nth j gs []) order.
+
 (* a context that was populated before the rebuild: ly_ctx_load_module calls, a failing one leaves the context as it
    was (lys_unres_glob_revert) *)
 Fixpoint preload (src : list ymod) (c : ctx) (ops : list (bytes * option bytes * fspec)) : ctx :=
